@@ -33,7 +33,7 @@ def defaultTol (w : List K) (eps : K) : K := listMaxAbs w * Scalar.ofNat w.lengt
 def checkSdpFromEigen (w : List K) (tol : K) : Except Err Bool :=
   if tol < 0 then .error .valueError
   else if w.any (fun x => x < -tol) then .error .nonPSD
-  else if w.any (fun x => sabs x < tol) then .ok false
+  else if w.any (fun x => sabs x ≤ tol) then .ok false
   else .ok true
 
 /-- `_pseudo_inverse_from_eig(w, V)`: `V · diag(w⁺) · Vᵀ`, `w⁺ = 1/w` where `|w| > tol`, else 0 -/
